@@ -37,6 +37,7 @@ SC3_PATH = os.environ.get('VERIF_SC3_PATH', '/repo')
 OUT = os.environ.get('VERIF_OUT', ROOT)  # evidence/replays/.work root
 MAX_SIGNATURES = 8
 MAX_SAMPLES = 6
+SHRINK_BUDGET = {'quick': 15.0, 'thorough': 90.0}  # seconds per signature
 
 
 class Violation(Exception):
@@ -44,6 +45,10 @@ class Violation(Exception):
         super().__init__(f'{kind}: {detail}')
         self.kind = kind
         self.detail = str(detail)[:2000]
+
+
+class _StopShrink(BaseException):
+    """Minimisation budget used up; escapes Hypothesis (BaseException)."""
 
 
 class Reject(Exception):
@@ -221,7 +226,9 @@ class Ctx:
         from hypothesis import given, settings, HealthCheck, Phase
         excluded = set()
         attempt = 0
-        while len(excluded) < MAX_SIGNATURES:
+        budget = SHRINK_BUDGET[self.tier]
+        max_sigs = MAX_SIGNATURES if self.tier == 'thorough' else 4
+        while len(excluded) < max_sigs:
             state = {}
             ctx = self
 
@@ -241,12 +248,19 @@ class Ctx:
             def test(case):
                 viol = ctx.exec_case(stage, case, excluded)
                 if viol is not None:
-                    state['last'] = (case, viol)
+                    first = state.setdefault('first', viol.sig)
+                    if viol.sig == first:
+                        # Hypothesis only moves to smaller failing examples,
+                        # so the last one seen is the best reproduction
+                        state['last'] = (case, viol)
+                    t0 = state.setdefault('t0', time.time())
+                    if time.time() - t0 > budget:
+                        raise _StopShrink()
                     raise viol
 
             try:
                 test()
-            except Violation:
+            except (Violation, _StopShrink):
                 case, viol = state['last']
                 self.record_violation(stage, case, viol)
                 excluded.add(viol.sig)
